@@ -122,6 +122,28 @@ class Named:
         return tr
 
 
+class MultiNamed:
+    """named quantities of several stages of one multi-stage OCP"""
+
+    def __init__(self, nameds):
+        self.nameds = nameds
+        self.items = []
+        self.slices = []
+        for n in nameds:
+            a = len(self.items)
+            self.items += n.items
+            self.slices.append((a, len(self.items)))
+
+    def exprs(self):
+        return [it[-1] for it in self.items]
+
+    def traj(self, vals, dom):
+        return self.trajs(vals, dom)[0]
+
+    def trajs(self, vals, dom):
+        return [n.traj(vals[a:b], dom) for n, (a, b) in zip(self.nameds, self.slices)]
+
+
 class Inst:
     """traced instance"""
 
@@ -137,7 +159,11 @@ class Inst:
         try:
             self.b = built or declare(spec, cfg, poly=poly)
             self.nlp = NLP(self.b, solver=solver)
-            self.named = Named(self.b)
+            stages = getattr(self.b, 'stage_builts', None)
+            if stages:
+                self.named = MultiNamed([Named(bs) for bs in stages])
+            else:
+                self.named = Named(self.b)
         except (HarnessError, Unsupported):
             raise
         except Exception as e:
@@ -206,6 +232,13 @@ class Inst:
             vals = [[self.rdom.wrap(x) for x in v] for v in self.view(d)[4]]
             return self.named.traj(vals, self.rdom)
         return self.named.traj(self.view(d)[4], self.fdom)
+
+    def trajs(self, d):
+        """per-stage trajectories of a multi-stage instance"""
+        if d == 'z':
+            vals = [[self.rdom.wrap(x) for x in v] for v in self.view(d)[4]]
+            return self.named.trajs(vals, self.rdom)
+        return self.named.trajs(self.view(d)[4], self.fdom)
 
     def domains(self):
         return ['z'] + list(range(NPTS))
